@@ -133,7 +133,9 @@ func (b *BN) Spec(context.Context, *eth2api.SpecOpts) (*eth2api.Response[map[str
 	if err := b.failOnly("spec"); err != nil {
 		return nil, err
 	}
-	m := map[string]any{"SECONDS_PER_SLOT": b.SlotDur, "SLOTS_PER_EPOCH": b.SPE, "TARGET_AGGREGATORS_PER_COMMITTEE": uint64(16)}
+	m := map[string]any{"SECONDS_PER_SLOT": b.SlotDur, "SLOTS_PER_EPOCH": b.SPE, "TARGET_AGGREGATORS_PER_COMMITTEE": uint64(16),
+		// every member of a sync subcommittee is an aggregator (modulo = 512/4/128 = 1)
+		"SYNC_COMMITTEE_SIZE": uint64(512), "SYNC_COMMITTEE_SUBNET_COUNT": uint64(4), "TARGET_AGGREGATORS_PER_SYNC_SUBCOMMITTEE": uint64(128)}
 	for k, v := range DomainTypes {
 		m[k] = v
 	}
